@@ -95,7 +95,7 @@ def mk_class(c, info, W):
 
     ns = {"__init__": init, "send": send, "receive": receive, "CID": c}
     handler = {}
-    if info["kind"] in ("A", "a"):
+    if info["kind"] in ("A", "a", "d"):
         handler["onEvent"] = seen                      # overrides YowLayer.onEvent: sees every event
     else:
         handler["on_c18"] = EventCallback(EV)(seen)    # goes through YowLayer.onEvent's name dispatch
@@ -104,6 +104,15 @@ def mk_class(c, info, W):
         # layers): the layer class itself defines neither onEvent nor a callback
         base = type("RB%d" % c, (YowLayer,), handler)
         return type("R%d" % c, (base,), ns)
+    if info["kind"] in ("d", "e"):
+        # the layer SPECIALISES a concrete layer class that has been instantiated before it (a layer below it in
+        # the stack, an earlier stack of the same process) and adds its handler there: whatever a layer class
+        # remembers per class about its handlers must not leak from the base class to the subclass
+        base = type("RC%d" % c, (YowLayer,), {})
+        base()                                          # the base class is in use before the subclass exists
+        cls = type("R%d" % c, (base,), dict(ns, **handler))
+        base()
+        return cls
     ns.update(handler)
     return type("R%d" % c, (YowLayer,), ns)
 
@@ -338,7 +347,7 @@ def visible(case, name, tags):
     """kind-B recorders hear only events named EV (YowLayer.onEvent's dispatch by name)"""
     if name == EV:
         return list(tags)
-    return [t for t in tags if case["classes"][str(case["tagcls"][str(t)])]["kind"] in ("A", "a")]
+    return [t for t in tags if case["classes"][str(case["tagcls"][str(t)])]["kind"] in ("A", "a", "d")]
 
 
 def oracle_event(case, slots, op, pending):
@@ -429,7 +438,7 @@ def new_case(rng, shape, reversed_, kinds=None, nclasses=None, dup_classes=False
     ncls = nclasses or max(1, len(alltags))
     if dup_classes and len(alltags) > 1:
         ncls = rng.randint(1, max(1, len(alltags) - 1))
-    classes = {str(c): {"kind": rng.choice("AABab"), "iface": (None if rng.random() < .35 else 100 + c),
+    classes = {str(c): {"kind": rng.choice("AABabde"), "iface": (None if rng.random() < .35 else 100 + c),
                         "ret": rng.randint(0, 2)} for c in range(1, ncls + 1)}
     if dup_classes:
         tagcls = {str(t): rng.randint(1, ncls) for t in alltags}
